@@ -777,7 +777,7 @@ impl<S: Scheduler> Scheduler for IterRecorder<S> {
     fn new_execution(&mut self) -> Option<Schedule> {
         if self.started {
             let sch = CurrentSchedule::get_schedule();
-            ITERS.with(|l| l.borrow_mut().push(format!("S={}:T=ok", show_schedule(&sch))));
+            ITERS.with(|l| l.borrow_mut().push(format!("S={}:R={}:T=ok", show_schedule(&sch), take_draws())));
         }
         self.started = true;
         self.inner.new_execution()
@@ -788,8 +788,22 @@ impl<S: Scheduler> Scheduler for IterRecorder<S> {
         c
     }
     fn next_u64(&mut self) -> u64 {
-        self.inner.next_u64()
+        let v = self.inner.next_u64();
+        DRAWS.with(|d| d.borrow_mut().push(v.to_string()));
+        v
     }
+}
+
+thread_local! {
+    static DRAWS: RefCell<Vec<String>> = const { RefCell::new(Vec::new()) };
+}
+
+fn take_draws() -> String {
+    DRAWS.with(|d| {
+        let s = d.borrow().join(".");
+        d.borrow_mut().clear();
+        s
+    })
 }
 
 fn parse_config(ms: &str) -> Option<Config> {
@@ -816,15 +830,16 @@ fn parse_prog(objs: &str, bodies: &str) -> Arc<Prog> {
 
 /// progdfs <ms> <maxiter|-> <objs> <bodies>: the real DfsScheduler under the real Runner
 pub fn run_dfs(words: &[&str]) -> String {
-    let [_, ms, mi, objs, bodies] = words else {
+    let [_, ms, mi, allow, objs, bodies] = words else {
         return "ERR bad case".to_string();
     };
     let Some(config) = parse_config(ms) else { return "ERR bad max_steps".to_string() };
     let cap = 3000usize;
+    DRAWS.with(|d| d.borrow_mut().clear());
     let mi: usize = if *mi == "-" { cap } else { mi.parse::<usize>().unwrap().min(cap) };
     let prog = parse_prog(objs, bodies);
     let sched = IterRecorder {
-        inner: shuttle_schedulers::DfsScheduler::new(Some(mi), false),
+        inner: shuttle_schedulers::DfsScheduler::new(Some(mi), *allow == "1"),
         started: false,
     };
     LOG.with(|l| l.borrow_mut().clear());
@@ -841,7 +856,7 @@ pub fn run_dfs(words: &[&str]) -> String {
         // the final new_execution call (which answered None) already recorded the last execution
         Ok(n) => n,
         Err(p) => {
-            ITERS.with(|l| l.borrow_mut().push(format!("S={}:T={}", show_schedule(&last), classify(p))));
+            ITERS.with(|l| l.borrow_mut().push(format!("S={}:R={}:T={}", show_schedule(&last), take_draws(), classify(p))));
             usize::MAX
         }
     };
@@ -981,6 +996,70 @@ pub fn run_replay(words: &[&str]) -> String {
     out
 }
 
+fn run_kind(kind: &str, seed: u64, param: usize, iters: usize, config: Config, prog: Arc<Prog>) -> Option<(Vec<(String, Schedule)>, Option<String>)> {
+    Some(match kind {
+        "random" => run_recorded(shuttle_schedulers::RandomScheduler::new_from_seed(seed, iters), config, prog),
+        "pct" => run_recorded(shuttle_schedulers::PctScheduler::new_from_seed(seed, param.max(1), iters), config, prog),
+        "dfs" => run_recorded(shuttle_schedulers::DfsScheduler::new(Some(iters), true), config, prog),
+        "rr" => run_recorded(shuttle_schedulers::RoundRobinScheduler::new(iters), config, prog),
+        "urw" => run_recorded(shuttle_schedulers::UrwRandomScheduler::new_from_seed(seed, iters), config, prog),
+        _ => return None,
+    })
+}
+
+/// twice <kind> <seed> <param> <iters> <ms> <objs> <bodies>: two runs of the same body with a scheduler built from
+/// the same seed must perform the same sequence of executions
+pub fn run_twice(words: &[&str]) -> String {
+    let [_, kind, seed, param, iters, ms, objs, bodies] = words else {
+        return "ERR bad case".to_string();
+    };
+    let Some(config) = parse_config(ms) else { return "ERR bad max_steps".to_string() };
+    let seed: u64 = seed.parse().unwrap();
+    let param: usize = param.parse().unwrap();
+    let iters: usize = iters.parse().unwrap();
+    let prog = parse_prog(objs, bodies);
+    let Some((a, fa)) = run_kind(kind, seed, param, iters, config.clone(), prog.clone()) else { return "ERR bad scheduler".to_string() };
+    let Some((b, fb)) = run_kind(kind, seed, param, iters, config, prog) else { return "ERR bad scheduler".to_string() };
+    if a.len() != b.len() || fa != fb {
+        return format!("DIFF iterations {} vs {} fail {:?} vs {:?}", a.len(), b.len(), fa, fb);
+    }
+    for (i, ((la, sa), (lb, sb))) in a.iter().zip(b.iter()).enumerate() {
+        if la != lb || sa != sb {
+            let x: Vec<&str> = la.split(' ').collect();
+            let y: Vec<&str> = lb.split(' ').collect();
+            let pos = x.iter().zip(y.iter()).position(|(p, q)| p != q).unwrap_or(x.len().min(y.len()));
+            return format!("DIFF iter={} pos={} a={} b={} seedA={} seedB={}", i, pos, x.get(pos).unwrap_or(&"<end>"), y.get(pos).unwrap_or(&"<end>"), sa.seed, sb.seed);
+        }
+    }
+    let multi = a.iter().filter(|(l, _)| l.contains(",")).count();
+    format!("SAME N={} F={} multi={}", a.len(), fa.unwrap_or("-".into()), multi)
+}
+
+/// reseed <seed> <iters> <ms> <objs> <bodies>: every iteration of the random scheduler, re-run from the seed it
+/// reported with one iteration, must be reproduced exactly (data draws included)
+pub fn run_reseed(words: &[&str]) -> String {
+    let [_, seed, iters, ms, objs, bodies] = words else {
+        return "ERR bad case".to_string();
+    };
+    let Some(config) = parse_config(ms) else { return "ERR bad max_steps".to_string() };
+    let prog = parse_prog(objs, bodies);
+    let Some((a, fa)) = run_kind("random", seed.parse().unwrap(), 0, iters.parse().unwrap(), config.clone(), prog.clone()) else {
+        return "ERR".to_string();
+    };
+    for (i, (la, sa)) in a.iter().enumerate() {
+        let Some((b, fb)) = run_kind("random", sa.seed, 0, 1, config.clone(), prog.clone()) else { return "ERR".to_string() };
+        let expect_fail = if i + 1 == a.len() { fa.clone() } else { None };
+        let lb = b.first().map(|x| x.0.clone()).unwrap_or_default();
+        if &lb != la || fb != expect_fail {
+            let x: Vec<&str> = la.split(' ').collect();
+            let y: Vec<&str> = lb.split(' ').collect();
+            let pos = x.iter().zip(y.iter()).position(|(p, q)| p != q).unwrap_or(x.len().min(y.len()));
+            return format!("DIFF iter={} seed={} pos={} orig={} rerun={} origT={:?} rerunT={:?}", i, sa.seed, pos, x.get(pos).unwrap_or(&"<end>"), y.get(pos).unwrap_or(&"<end>"), expect_fail, fb);
+        }
+    }
+    format!("SAME N={} F={}", a.len(), fa.unwrap_or("-".into()))
+}
+
 /// nondet <seed> <iters> <ms> <objs> <bodies>: the uncontrolled-nondeterminism checker must accept the program
 pub fn run_nondet(words: &[&str]) -> String {
     let [_, seed, iters, ms, objs, bodies] = words else {
@@ -1025,6 +1104,12 @@ pub fn run(words: &[&str]) -> String {
     }
     if words.first() == Some(&"replay") {
         return run_replay(words);
+    }
+    if words.first() == Some(&"reseed") {
+        return run_reseed(words);
+    }
+    if words.first() == Some(&"twice") {
+        return run_twice(words);
     }
     if words.first() == Some(&"nondet") {
         return run_nondet(words);
